@@ -86,6 +86,36 @@ def run_selftest(pid: str, prog: Program, base_keys: List[str], tier: str, jobs:
             outs = pool.map(_mut_worker, [(pid, s, 'quick') for _, s in work])
     else:
         outs = [_mut_worker((pid, s, 'quick')) for _, s in work]
+    # thorough tier: the seeded changes recorded under /verif/seeded (independently written breakages, each confirmed
+    # against the real code and the unedited suite) are replayed in memory as further BREAKS operators
+    if tier == 'thorough':
+        import glob
+        from .patch import apply_unified
+        seeded = []
+        for dd in sorted(glob.glob(os.path.join(VERIF, 'seeded', '*'))):
+            try:
+                meta = json.load(open(os.path.join(dd, 'meta.json')))
+            except Exception:
+                continue
+            if meta.get('property') != pid:
+                continue
+            srcs = apply_unified(open(os.path.join(dd, 'patch.diff')).read(), prog.sources)
+            name = 'seeded:' + os.path.basename(dd)
+            if srcs is None:
+                res['skipped'] += 1
+                res['matrix'].append({'id': name, 'expect': 'BREAKS', 'outcome': 'skipped', 'why': 'patch does not apply to the current tree'})
+                continue
+            seeded.append(({'id': name, 'expect': meta.get('expect', 'BREAKS'), 'note': 'seeded change', 'suite': 'passes',
+                            'file': None, 'func': None, 'old': '', 'new': ''}, srcs))
+        if seeded:
+            if jobs > 1 and len(seeded) > 1:
+                import multiprocessing as mp
+                with mp.get_context('fork').Pool(min(jobs, len(seeded))) as pool:
+                    souts = pool.map(_mut_worker, [(pid, s, 'quick') for _, s in seeded])
+            else:
+                souts = [_mut_worker((pid, s, 'quick')) for _, s in seeded]
+            work = work + seeded
+            outs = list(outs) + list(souts)
     for (m, srcs), (status, keys, detail) in zip(work, outs):
         res['applied'] += 1
         new_keys = [k for k in keys if k not in base_keys]
@@ -94,6 +124,11 @@ def run_selftest(pid: str, prog: Program, base_keys: List[str], tier: str, jobs:
         good = False
         if m['expect'] == 'BREAKS':
             good = status == 'violation' and bool(new_keys)
+            if good:
+                res['killed'] += 1
+        elif m['expect'] == 'INCONCLUSIVE':
+            # a recorded limit of the rules: the change is outside the verified idioms and is answered with exit 2
+            good = status in ('inconclusive', 'violation')
             if good:
                 res['killed'] += 1
         else:
@@ -105,7 +140,7 @@ def run_selftest(pid: str, prog: Program, base_keys: List[str], tier: str, jobs:
         row['outcome'] = 'as-expected' if good else 'UNEXPECTED'
         if not good:
             row['detail'] = detail[:400]
-            (res['failed'] if reference_ok(m, prog.sources) else res['stale']).append(m['id'])
+            (res['failed'] if (m['id'].startswith('seeded:') or reference_ok(m, prog.sources)) else res['stale']).append(m['id'])
         res['matrix'].append(row)
     return res
 
